@@ -345,7 +345,8 @@ impl World {
                             *d += 1;
                             *d
                         };
-                        match client.ack.as_str() {
+                        let policy = client.ack_by_key.get(&r.key).cloned().unwrap_or_else(|| client.ack.clone());
+                        match policy.as_str() {
                             "now" => ack_now = true,
                             "twice" => ack_now = true,
                             s if s.starts_with("later:") => {
@@ -376,10 +377,16 @@ impl World {
                     g.rec.msgs.push(r.clone());
                 }
                 if ack_now {
+                    let twice = client.ack_by_key.get(&r.key).map(|p| p == "twice").unwrap_or(client.ack == "twice");
                     let _ = engine.executor().msg().ack(&r.id);
-                    if client.ack == "twice" {
+                    if twice {
                         let _ = engine.executor().msg().ack(&r.id);
                     }
+                    let seq = vsim::bump_seq();
+                    vsim::log(&format!("ACK {}", r.key));
+                    let mut g = rec.lock().unwrap();
+                    g.rec.ops.push(OpRec { seq, qidx: 0, op: "ack".into(), detail: r.id.clone() });
+                    g.rec.count("client.acks");
                 }
                 if let Some(oa) = open_now {
                     if client.mode == "inline" {
